@@ -307,6 +307,9 @@ func wipeLike(callee string) bool {
 // forward-secrecy property only the calls that erase.
 func (a *An) gateRelevant(prop, key string, fields []string, changed []string) bool {
 	parts := strings.SplitN(key, "|", 2)
+	if prop == "C08" && strings.Contains(a.gateCallerProps()[parts[0]], prop) && wipeLike(parts[1]) {
+		return true // the conditions under which something is erased concern forward secrecy whatever it is that is erased
+	}
 	if !strings.Contains(a.gateCallerProps()[parts[0]], prop) || !strings.Contains(gatePropsOf(fields), prop) {
 		return false
 	}
@@ -1469,8 +1472,8 @@ func (a *An) callsOf(f *ssa.Function, depth int, stack map[*ssa.Function]bool, i
 				if sc.Pkg != nil && (sc.Pkg.Pkg.Path() == "fmt" || sc.Pkg.Pkg.Path() == "bufio") {
 					continue // texts of errors and of the debug dump
 				}
-				if a.C.arithOld(sc) {
-					continue // only names an expression over its arguments: part of the terms it occurs in
+				if a.C.arithOld(sc) || a.C.pureNumeric(sc) {
+					continue // only names an expression over its arguments (min, max): part of the terms it occurs in
 				}
 				if a.formulaWrapper(sc) && depth < 8 && !stack[sc] {
 					// a function that only names a formula over other functions of the library (generateDZKP(r, a, c) =
